@@ -323,7 +323,9 @@ def summarise(ctx, spec, results):
         corr.append({"correspondence": "harness error", "detail": herr[0]})
     samples = [{"stream": r["stream"], "seed": r["sub"], "features": r["features"][:12]}
                for r in results if "harness_error" not in r][:3]
+    xc = [tuple(r["_xcheck"]) for r in results if isinstance(r, dict) and r.get("_xcheck")]
     return {
+        "_xcheck": xc,
         "evaluations": len(results) * len(spec.opts),
         "packages": len(results),
         "distinct_nontrivial": len(keys),
